@@ -34,6 +34,7 @@ const (
 	OIDBit         = 1560
 	OIDVarbit      = 1562
 	OIDJSONB       = 3802
+	OIDNumeric     = 1700
 	OIDInt4Array   = 1007
 	OIDTextArray   = 1009
 )
@@ -70,8 +71,107 @@ func (b BitString) binary() []byte {
 	return append(out, oct...)
 }
 
+// Numeric is a numeric value written as plain decimal digits ("-12.3400"), "NaN", "Infinity" or "-Infinity".
+type Numeric string
+
+// NumericCanon is the comparison form of a numeric: its value, whatever the display scale.
+func NumericCanon(nan bool, inf int, neg bool, digits string, exp int) string {
+	switch {
+	case nan:
+		return "n:NaN"
+	case inf > 0:
+		return "n:Infinity"
+	case inf < 0:
+		return "n:-Infinity"
+	}
+	digits = strings.TrimLeft(digits, "0")
+	for strings.HasSuffix(digits, "0") {
+		digits, exp = digits[:len(digits)-1], exp+1
+	}
+	if digits == "" {
+		return "n:0"
+	}
+	sign := ""
+	if neg {
+		sign = "-"
+	}
+	return fmt.Sprintf("n:%s%se%d", sign, digits, exp)
+}
+
+func (n Numeric) parts() (neg bool, ip, fp string) {
+	s := string(n)
+	if strings.HasPrefix(s, "-") {
+		neg, s = true, s[1:]
+	}
+	ip, fp, _ = strings.Cut(s, ".")
+	return
+}
+
+func (n Numeric) canon() string {
+	switch n {
+	case "NaN":
+		return NumericCanon(true, 0, false, "", 0)
+	case "Infinity":
+		return NumericCanon(false, 1, false, "", 0)
+	case "-Infinity":
+		return NumericCanon(false, -1, false, "", 0)
+	}
+	neg, ip, fp := n.parts()
+	return NumericCanon(false, 0, neg, ip+fp, -len(fp))
+}
+
+// binary: ndigits, weight, sign, dscale, then base-10000 digits (what PostgreSQL's numeric_send produces)
+func (n Numeric) binary() []byte {
+	hdr := func(nd int, weight int, sign uint16, dscale int) []byte {
+		return append(append(append(be16(uint16(nd)), be16(uint16(int16(weight)))...), be16(sign)...), be16(uint16(dscale))...)
+	}
+	switch n {
+	case "NaN":
+		return hdr(0, 0, 0xc000, 0)
+	case "Infinity":
+		return hdr(0, 0, 0xd000, 0)
+	case "-Infinity":
+		return hdr(0, 0, 0xf000, 0)
+	}
+	neg, ip, fp := n.parts()
+	dscale := len(fp)
+	for len(ip)%4 != 0 {
+		ip = "0" + ip
+	}
+	for len(fp)%4 != 0 {
+		fp += "0"
+	}
+	var groups []uint16
+	for _, part := range []string{ip, fp} {
+		for i := 0; i < len(part); i += 4 {
+			g, _ := strconv.Atoi(part[i : i+4])
+			groups = append(groups, uint16(g))
+		}
+	}
+	weight := len(ip)/4 - 1
+	for len(groups) > 0 && groups[0] == 0 {
+		groups, weight = groups[1:], weight-1
+	}
+	for len(groups) > 0 && groups[len(groups)-1] == 0 {
+		groups = groups[:len(groups)-1]
+	}
+	sign := uint16(0)
+	if len(groups) == 0 {
+		weight = 0
+	} else if neg {
+		sign = 0x4000
+	}
+	b := hdr(len(groups), weight, sign, dscale)
+	for _, g := range groups {
+		b = append(b, be16(g)...)
+	}
+	return b
+}
+
 func Canon(oid uint32, v any) string {
 	switch x := v.(type) {
+	case Numeric:
+		return x.canon()
 	case BitString:
 		return "bits:" + string(x)
 	case bool:
@@ -531,6 +631,8 @@ func Encode(oid uint32, format int16, v any) []byte {
 
 func encodeBinary(oid uint32, v any) []byte {
 	switch x := v.(type) {
+	case Numeric:
+		return x.binary()
 	case BitString:
 		return x.binary()
 	case bool:
@@ -595,6 +697,8 @@ func encodeBinary(oid uint32, v any) []byte {
 
 func encodeText(oid uint32, v any) []byte {
 	switch x := v.(type) {
+	case Numeric:
+		return []byte(x)
 	case BitString:
 		return []byte(x)
 	case bool:
